@@ -104,6 +104,9 @@ pub open spec fn mint_supported(m: Mint, badge: bool) -> bool {
 pub struct TokenBadge { pub whirlpools_config: Pubkey, pub token_mint: Pubkey, pub attribute_require_non_transferable_position: bool }
 pub struct BadgeAccount<'a> { pub owner: &'a Pubkey, pub stored: Option<TokenBadge> }
 pub type UncheckedAccount<'a> = BadgeAccount<'a>;
+/// the address of the (unchecked) badge account: not part of the shim's fields, an uninterpreted attribute
+pub uninterp spec fn badge_account_key<'a>(a: BadgeAccount<'a>) -> Pubkey;
+impl<'a> crate::anchor_shim::SKey for BadgeAccount<'a> { open spec fn skey(&self) -> Pubkey { badge_account_key(*self) } }
 #[verifier::external_body]
 pub fn whirlpool_id() -> (r: Pubkey) ensures r == whirlpool_program_id() { unimplemented!() }
 #[verifier::external_body]
